@@ -123,10 +123,23 @@ structure Acs where
 /-- `AccessControlSet::allows_all` -/
 def Acs.allowsAll (a : Acs) : Bool := a.deny.isEmpty
 
-/-- `AccessControlSet::denied` -/
+/-- `::ffff:a.b.c.d` — the only IPv6 addresses `IpAddr::to_canonical` turns into IPv4 ones -/
+def Ip.isMapped (ip : Ip) : Bool := ip.v6 && ip.addr / 2 ^ 32 == 0xffff
+
+/-- `IpAddr::to_canonical`: an IPv4-mapped IPv6 address becomes the IPv4 address, everything else
+(also the IPv4-compatible `::a.b.c.d`, `::1`, `::`) stays what it is -/
+def Ip.canonical (ip : Ip) : Ip := if ip.isMapped then ⟨false, ip.addr % 2 ^ 32⟩ else ip
+
+/-- `AccessControlSet::denied`: the canonical address is looked up in the prefix sets of its own
+family only (`get_spm` = some listed network contains it); a deny match counts unless an allow
+network matches as well; with both deny sets empty nothing is denied. -/
 def Acs.denied (a : Acs) (ip : Ip) : Bool :=
   if a.allowsAll then false
-  else !(a.allow.any (·.contains ip)) && a.deny.any (·.contains ip)
+  else !(a.allow.any (·.contains ip.canonical)) && a.deny.any (·.contains ip.canonical)
+
+/-- the networks of one address family (the `v4_*` / `v6_*` prefix sets of the Rust struct) -/
+def Acs.family (a : Acs) (v6 : Bool) : Acs :=
+  ⟨a.allow.filter (fun n => n.v6 == v6), a.deny.filter (fun n => n.v6 == v6)⟩
 
 structure Config where
   recursionLimit : Nat
